@@ -18,6 +18,7 @@ C14.h an existing destination file is considered for reuse only if it is a regul
 C14.i metadata: set_metadata applies permission, times (and ownership unless no_ownership) unconditionally, times last;
   restore_metadata calls set_metadata for every non-directory node, defers directories on a stack (no immediate
   set_metadata of the directory just entered), applies popped directories, and drains the stack in reverse afterwards.
+C14.j LocalDestination::hard_link probes and removes an existing non-directory entry before std::fs::hard_link (D19).
 C14.g R-ACCUM: file offsets advance by each blob's length (RestorePlan::add_file).
 """
 import re
@@ -203,6 +204,8 @@ def run(ctx, rep):
         rep.check("C14.h", f"reuse-only-regular-file/{n}", is_file, where=where(b, bb), what="... and only if it is a regular file (symlink_metadata().is_file())")
     # ---- C14.i: metadata ---------------------------------------------------------------------------------
     metadata_rules(ctx, rep, "C14.i")
+    rep.rule("C14.j", "hardlinks are restored over an existing destination entry")
+    hardlink_rule(ctx, rep, "C14.j")
     # ---- C14.g -------------------------------------------------------------------------------------
     AF = prog.find1(r"^rustic_core::commands::restore::RestorePlan::add_file$")
     adv = []
@@ -327,3 +330,28 @@ def _reaches_any(body, start, targets, cut_blocks=(), within=None):
             return True
         work.extend(body.succ(b))
     return False
+
+
+def hardlink_rule(ctx, rep, R):
+    """C14.j hardlinks over an existing destination: fs::hard_link fails with EEXIST if the link path exists, so
+    LocalDestination::hard_link must clear an existing (non-directory) entry first - otherwise restoring a snapshot with
+    hardlinks into a destination that already holds them (e.g. a second restore) aborts (D19)."""
+    prog = ctx.prog
+    HL = prog.find1(r"^rustic_core::backend::local_destination::LocalDestination::hard_link$")
+    fam = [HL] + prog.closures_of(HL)
+    links = [(bb, t) for bb, t in HL.calls() if "callee" in t and callee(t) == "std::fs::hard_link"]
+    rep.require(R, "hard_link/site", len(links) == 1, where=HL.loc(), what="LocalDestination::hard_link creates the link with std::fs::hard_link")
+    if len(links) != 1:
+        return
+    lb, lt = links[0]
+    target = flow.base_local(HL, op_place(lt["args"][1])) if op_place(lt["args"][1]) else None
+    rms = [(bb, t) for bb, t in HL.calls() if "callee" in t and re.search(r"^std::fs::(remove_file|remove_dir_all|remove_dir)$", callee(t))
+           and op_place(t["args"][0]) and flow.base_local(HL, op_place(t["args"][0])) == target]
+    probes = [(bb, t) for bb, t in HL.calls() if "callee" in t and re.search(r"^std::fs::(symlink_metadata|metadata)$|Path::(exists|try_exists|is_file|is_symlink|symlink_metadata)$", callee(t))
+              and op_place(t["args"][0]) and flow.base_local(HL, op_place(t["args"][0])) == target]
+    ok = bool(rms) and bool(probes) and all(C.can_reach(HL, p_, lb) for p_, _ in probes) and all(C.can_reach(HL, r_, lb) for r_, _ in rms)
+    # the removal is propagated (a failed removal must not be ignored: the link would fail anyway, with a worse message)
+    okp = all(ok_cut(HL, r_)[0] in ("?", "return") for r_, _ in rms) if rms else False
+    rep.check(R, "hard_link/replaces-existing-entry", ok and okp, where=where(HL, lb),
+              what="an existing entry at the link path is probed and removed before std::fs::hard_link" if ok and okp else
+                   "std::fs::hard_link is called without clearing an existing entry at the link path: restoring hardlinks over a destination that already has them fails with EEXIST")
